@@ -115,4 +115,36 @@ def ctime_s (cfg : Cfg) (dest dmax timer : Nat) (destbos : Bos) (text : Nat) : P
         if tv2 ≥ MAX_CTIME_T then failClr cfg dest dmax ESLEMAX
         else timeTail cfg dest dmax destbos text
 
+/-! ## gmtime_s / localtime_s (`src/os/gmtime_s.c`, `src/os/localtime_s.c`: the same code around `gmtime_r` / `localtime_r`)
+
+libc's broken-down time is an ARGUMENT (`res`: the 14 32-bit cells of a `struct tm`, checked by the harness shim against
+`gmtime_r` / `localtime_r`); `tm_zone` (cells 12, 13: an address inside libc) is stored as 0 (the shim clears it in dest).
+Returned: EOK when the C returns dest, otherwise the value of `errno` — NOTE that for an out-of-range `*timer` the handler is
+told ESLEMIN / ESLEMAX while `errno` is set to EOVERFLOW. -/
+
+/-- `MAX_TIME_T_STR` (src/safeclib_private.h): the epoch of `tm_year` 10000 -/
+def MAX_TIME_T_STR : Int := 313360441200
+
+def copyTm : Nat → Nat → Nat → Nat → Prog Unit
+  | 0, _, _, _ => pure ()
+  | k+1, i, res, dest => do
+    let v ← load (res + i)
+    (if i = 9 then pure () else store (dest + i) (if i ≥ 12 then 0 else v))   -- cell 9 is padding: libc assigns the members only
+    copyTm k (i+1) res dest
+
+def tmConv (timer dest res : Nat) : Prog Nat :=
+  if dest = 0 then failS ESNULLP
+  else if timer = 0 then failS ESNULLP
+  else do
+    let t ← load timer
+    if cellI64 t < 0 then do handlerS ESLEMIN; pure EOVERFLOW
+    else do
+      let t2 ← load timer
+      if cellI64 t2 ≥ MAX_TIME_T_STR then do handlerS ESLEMAX; pure EOVERFLOW
+      else if res = 0 then pure NEG1                     -- libc could not convert (not reachable below the year 11900)
+      else do copyTm 14 0 res dest; pure EOK
+
+def gmtime_s := tmConv
+def localtime_s := tmConv
+
 end SafeC
